@@ -167,15 +167,6 @@ impl Nfa {
     }
 
     pub(crate) fn alternation(&mut self, mut nfa: Nfa) {
-        if self.is_empty() {
-            // If the current NFA is empty, set the start and end states of the current NFA to the
-            // start and end states of the new NFA
-            self.set_start_state(nfa.start_state);
-            self.set_end_state(nfa.end_state);
-            self.states = nfa.states;
-            return;
-        }
-
         // Apply an offset to the state numbers of the given NFA
         let (nfa_start_state, nfa_end_state) = nfa.shift_ids(self.states.len());
 
@@ -367,9 +358,15 @@ impl Nfa {
                 Ok(nfa)
             }
             Ast::Alternation(ref a) => {
-                for ast in a.asts.iter() {
+                for (index, ast) in a.asts.iter().enumerate() {
                     let nfa2: Nfa = Self::try_from_ast(ast.clone(), char_class_registry)?;
-                    nfa.alternation(nfa2);
+                    if index == 0 {
+                        // The first alternative is taken over as it is, even if it is empty.
+                        // An empty alternative must stay an alternative: `(|a)b` matches `b`.
+                        nfa.concat(nfa2);
+                    } else {
+                        nfa.alternation(nfa2);
+                    }
                 }
                 Ok(nfa)
             }
